@@ -70,6 +70,8 @@ pub async fn run(sc: &Scenario) -> RunReport {
     let mut resolved: HashMap<u32, (u64, Vec<u8>)> = HashMap::new();
     let mut conn_open_seq: HashMap<usize, u64> = HashMap::new();
     let mut sig: u64 = 0;
+    let keep = crate::obs::KEEP_TRACE.load(std::sync::atomic::Ordering::SeqCst);
+    let mut trace: Vec<String> = Vec::new();
     let mut viol = |violations: &mut Vec<Violation>, rule: &str, detail: String, seq: u64, t: u64| {
         if !violations.iter().any(|v| v.rule == rule) {
             violations.push(Violation { prop: "C14".into(), rule: rule.into(), detail, seq, t_us: t, node: None });
@@ -102,6 +104,13 @@ pub async fn run(sc: &Scenario) -> RunReport {
                     let _ = net.pump(until).await;
                     // Observe.
                     for ev in net.drain_tap() {
+                        if keep && trace.len() < 400 {
+                            let what = match &ev.kind {
+                                TapKind::Frame { phase, fidx, data } => format!("{:?} frame{} {} {:?}", phase, fidx, if ev.to_listener { "request" } else { "reply" }, String::from_utf8_lossy(data)),
+                                other => format!("{:?}", other),
+                            };
+                            trace.push(format!("seq={} t={}us connection#{}: {}", ev.seq, ev.t_us, ev.conn_idx, what));
+                        }
                         match &ev.kind {
                             TapKind::Open => {
                                 conn_open_seq.insert(ev.conn, ev.seq);
@@ -190,5 +199,5 @@ pub async fn run(sc: &Scenario) -> RunReport {
     *probes.entry("rs.delivered-distinct".into()).or_insert(0) += seen.len() as u64;
     *probes.entry("rs.resolved".into()).or_insert(0) += resolved.len() as u64;
     let (log_hash, events, faults, conns) = net.stats();
-    RunReport { violations, probes, faults, log_hash, sig_hash: crate::rng::mix(&[sig, seen.len() as u64, resolved.len() as u64]), virt_us: end, events, conns: conns as u64, panics: Vec::new(), harness_error: None }
+    RunReport { violations, probes, faults, log_hash, sig_hash: crate::rng::mix(&[sig, seen.len() as u64, resolved.len() as u64]), virt_us: end, events, conns: conns as u64, panics: Vec::new(), harness_error: None, trace_tail: trace }
 }
